@@ -247,7 +247,7 @@ def gen_case(rng):
   npf = rng.choice([0, 1, 1, 2, 3])
   return {"kind": "af", "gp": g, "points": pts, "batches": batches, "multitask": multitask,
           "pfs": [gen_pf_spec(rng, g) for _ in range(npf)],
-          "failure_model": rng.choice(["single", "product"])}
+          "failure_model": rng.choice(["single", "product"]), "nest": rng.choice([0, 0, 0, 1, 2, 3])}
 
 
 # ------------------------------------------------------------------ the check of one case
@@ -401,6 +401,11 @@ def check_af_case(ctx, case):
   if pf_objs:
     if case["failure_model"] == "product" or len(pf_objs) > 1:
       lst = [o[1] for o in pf_objs]
+      k = min(int(case.get("nest", 0)), len(lst))
+      if k:
+        # a product whose first member is itself a product of the first k models (a product model is a success model)
+        lst = [ProductOfListOfProbabilisticFailures(lst[:k])] + lst[k:]
+        ctx.count("nested product")
       try:
         failure_model = ProductOfListOfProbabilisticFailures(lst)
         pp = numpy.asarray(failure_model.compute_probability_of_success(pts), dtype=float)
